@@ -227,6 +227,8 @@ def _fallback(model: Model, rep: Report) -> None:
 
     okd = bool(ext) and all(any(pol and unparse(t) == "self.fallback" for t, pol in _guard_tests(dk, e)) for e in ext)
     r4.check(okd, site(dk), dk.qualname, "stream data is extended by scanned lines only in fallback mode", why="data += ... outside `if self.fallback`")
+    apps = sorted("".join(unparse(e.value).split()) for e in ext)
+    r4.check(apps == ["line", "line[:i]"], site(dk), dk.qualname, "in fallback mode every scanned line is appended, and of the line holding `endstream` the part before the keyword", why=f"appends {apps}: data that shares its line with `endstream` (no end-of-line before the keyword) would be lost when the body is scanned")
     ln = [n for n in walk_no_nested(dk.node) if isinstance(n, ast.Assign) and unparse(n.targets[0]) == "objlen" and "int_value" in unparse(n.value)]
     okl = bool(ln) and any(((not pol) and unparse(t) == "self.fallback") or (pol and unparse(t) == "not self.fallback") for t, pol in _guard_tests(dk, ln[0]))
     r4.check(okl, site(dk), dk.qualname, "/Length is trusted unless in fallback mode", why="Length read moved")
